@@ -31,7 +31,29 @@ Definition kind_of_default (d : pdefault) : option akind :=
   | DInt _ => Some KInt
   | DBool _ => Some KBool
   | DList _ => Some KList
+  | DOther _ _ => Some KStr   (* placeholder: [akind] has no constructor for other types; the
+                                 real type name is [kind_name] below.  Such a kind is not bool
+                                 and not list, which is all the rest of the model looks at. *)
   | DEmpty | DNone => None
+  end.
+
+(** type(default).__name__ *)
+Definition type_name (d : pdefault) : option string :=
+  match d with
+  | DStr _ => Some "str"
+  | DInt _ => Some "int"
+  | DBool _ => Some "bool"
+  | DList _ => Some "list"
+  | DOther ty _ => Some ty
+  | DEmpty | DNone => None
+  end.
+
+(** Argument.kind.__name__ as arg_opts sets it (Argument's default kind is str) *)
+Definition kind_name (dc : deco) (p : param) : string :=
+  let k0 := if mem (p_name p) (d_iterable dc) then "list" else "str" in
+  match type_name (p_default p) with
+  | Some k => if mem (p_name p) (d_optional dc) && String.eqb k "bool" then k0 else k
+  | None => k0
   end.
 
 (** The auto-shortflag loop of arg_opts:
